@@ -47,6 +47,8 @@ class _Helper:
         self.name = node.name
         decos = [ast.unparse(d) for d in node.decorator_list]
         self.static = "staticmethod" in decos
+        self.kwname = None
+        self.last_kwmap: Dict[str, ast.expr] = {}
         self.ok = self._inlinable(decos)
         body = [s for s in node.body if not (isinstance(s, ast.Expr) and isinstance(s.value, ast.Constant) and isinstance(s.value.value, str))]
         self.body = body
@@ -61,8 +63,22 @@ class _Helper:
         if any(d not in ("staticmethod",) for d in decos):
             return False
         a = n.args
-        if a.vararg or a.kwarg or a.posonlyargs:
+        if a.vararg or a.posonlyargs:
             return False
+        self.kwname = a.kwarg.arg if a.kwarg else None
+        if self.kwname:
+            # **options is supported when the body only reads options["literal"] and forwards **options
+            parents = {}
+            for x in ast.walk(n):
+                for ch in ast.iter_child_nodes(x):
+                    parents[id(ch)] = x
+            for x in ast.walk(n):
+                if isinstance(x, ast.Name) and x.id == self.kwname:
+                    par = parents.get(id(x))
+                    ok = (isinstance(par, ast.Subscript) and par.value is x and isinstance(par.slice, ast.Constant) and isinstance(par.slice.value, str) and isinstance(par.ctx, ast.Load)) or \
+                         (isinstance(par, ast.keyword) and par.arg is None and par.value is x)
+                    if not ok:
+                        return False
         for x in ast.walk(n):
             if isinstance(x, (ast.Yield, ast.YieldFrom, ast.Global, ast.Nonlocal, ast.Await, ast.Lambda)):
                 return False
@@ -158,10 +174,21 @@ def _bind(h: _Helper, call: ast.Call, caller_names: Set[str], counter: List[int]
     for (p, _), a in zip(params, call.args):
         actual[p] = a
     names = [p for (p, _) in params]
+    kwextra: Dict[str, ast.expr] = {}
     for k in call.keywords:
-        if k.arg not in names or k.arg in actual:
+        if k.arg in actual:
             return None
+        if k.arg not in names:
+            if h.kwname is None:
+                return None
+            kwextra[k.arg] = k.value
+            continue
         actual[k.arg] = k.value
+    if h.kwname is not None:
+        # every options["k"] read in the body must be supplied at this call site
+        for x in ast.walk(h.node):
+            if isinstance(x, ast.Subscript) and isinstance(x.value, ast.Name) and x.value.id == h.kwname and isinstance(x.slice, ast.Constant) and x.slice.value not in kwextra:
+                return None
     for (p, d) in params:
         if p not in actual:
             if d is None:
@@ -188,7 +215,41 @@ def _bind(h: _Helper, call: ast.Call, caller_names: Set[str], counter: List[int]
             continue
         if nm in caller_names:
             rename[nm] = nm + tag
+    h.last_kwmap = {}
+    for kname, a in kwextra.items():
+        if _simple(a):
+            h.last_kwmap[kname] = a
+        else:
+            new = f"{kname}{tag}"
+            pre.append(ast.Assign(targets=[ast.Name(id=new, ctx=ast.Store())], value=copy.deepcopy(a)))
+            h.last_kwmap[kname] = ast.Name(id=new, ctx=ast.Load())
     return pre, subst, rename
+
+
+class _KwExpand(ast.NodeTransformer):
+    """options["k"] -> the keyword argument given at the call site; f(**options) -> f(k1=..., k2=...)"""
+
+    def __init__(self, kwname: Optional[str], kwmap: Dict[str, ast.expr]):
+        self.kwname = kwname
+        self.kwmap = kwmap
+
+    def visit_Subscript(self, node: ast.Subscript):
+        if self.kwname and isinstance(node.value, ast.Name) and node.value.id == self.kwname and isinstance(node.slice, ast.Constant) and node.slice.value in self.kwmap:
+            return copy.deepcopy(self.kwmap[node.slice.value])
+        return self.generic_visit(node)
+
+    def visit_Call(self, node: ast.Call):
+        node = self.generic_visit(node)
+        if self.kwname:
+            new = []
+            for k in node.keywords:
+                if k.arg is None and isinstance(k.value, ast.Name) and k.value.id == self.kwname:
+                    given = {x.arg for x in node.keywords if x.arg}
+                    new += [ast.keyword(arg=a, value=copy.deepcopy(v)) for a, v in self.kwmap.items() if a not in given]
+                else:
+                    new.append(k)
+            node.keywords = new
+        return node
 
 
 def _always_returns(stmts: List[ast.stmt]) -> bool:
@@ -332,7 +393,7 @@ def _inline_in_function(fn: ast.FunctionDef, cur_cls: Optional[str], helpers, co
                 ex = expand(call)
                 if ex is not None:
                     h, (pre, subst, rename) = ex
-                    body = [_Renamer(subst, rename).visit(copy.deepcopy(s)) for s in h.body]
+                    body = [_Renamer(subst, rename).visit(_KwExpand(h.kwname, h.last_kwmap).visit(copy.deepcopy(s))) for s in h.body]
                     if form == "return":
                         out.extend(pre + body)
                         if not body or not isinstance(body[-1], ast.Return):
@@ -404,7 +465,7 @@ def _inline_in_function(fn: ast.FunctionDef, cur_cls: Optional[str], helpers, co
                 return node  # would need a binding statement
             used.add((h.cls, h.name))
             changed[0] = True
-            return _Renamer(subst, rename).visit(copy.deepcopy(h.body[0].value))
+            return _Renamer(subst, rename).visit(_KwExpand(h.kwname, h.last_kwmap).visit(copy.deepcopy(h.body[0].value)))
 
     E().visit(fn)
     return changed[0]
@@ -813,6 +874,120 @@ def _canonical_loops(fn: ast.FunctionDef) -> bool:
     return changed
 
 
+def _expand_vararg_maps(tree: ast.Module, modname: str, table: Set[str]) -> List[str]:
+    """New helpers of the form `def f(p.., *xs): return tuple(E(p.., x) for x in xs)` (or a list): every call
+    `f(a.., y1, y2, ...)` becomes the display `(E(a.., y1), E(a.., y2), ...)`."""
+    helpers = {}
+    for st in tree.body:
+        cands = [(None, st)] if isinstance(st, ast.FunctionDef) else ([(st.name, x) for x in st.body if isinstance(x, ast.FunctionDef)] if isinstance(st, ast.ClassDef) else [])
+        for (cls, fn) in cands:
+            if _qual(modname, cls, fn.name) in table or fn.args.vararg is None or fn.args.kwarg or fn.args.kwonlyargs or fn.args.defaults:
+                continue
+            body = [x for x in fn.body if not (isinstance(x, ast.Expr) and isinstance(x.value, ast.Constant))]
+            if len(body) != 1 or not isinstance(body[0], ast.Return):
+                continue
+            v = body[0].value
+            comp, kind = None, None
+            if isinstance(v, ast.Call) and isinstance(v.func, ast.Name) and v.func.id in ("tuple", "list") and len(v.args) == 1 and isinstance(v.args[0], (ast.GeneratorExp, ast.ListComp)):
+                comp, kind = v.args[0], v.func.id
+            elif isinstance(v, ast.ListComp):
+                comp, kind = v, "list"
+            if comp is None or len(comp.generators) != 1 or comp.generators[0].ifs or not isinstance(comp.generators[0].target, ast.Name):
+                continue
+            g = comp.generators[0]
+            if not (isinstance(g.iter, ast.Name) and g.iter.id == fn.args.vararg.arg):
+                continue
+            fixed = [a.arg for a in fn.args.args]
+            if cls is not None and fixed and fixed[0] in ("self", "cls") and not any(ast.unparse(d) == "staticmethod" for d in fn.decorator_list):
+                fixed = fixed[1:]
+            helpers[fn.name] = (fixed, g.target.id, comp.elt, kind)
+    done = []
+    if not helpers:
+        return done
+
+    class T(ast.NodeTransformer):
+        def visit_Call(self, node: ast.Call):
+            node = self.generic_visit(node)
+            name = node.func.id if isinstance(node.func, ast.Name) else (node.func.attr if isinstance(node.func, ast.Attribute) and isinstance(node.func.value, ast.Name) else None)
+            if name not in helpers or node.keywords or any(isinstance(a, ast.Starred) for a in node.args):
+                return node
+            fixed, var, elt, kind = helpers[name]
+            if len(node.args) < len(fixed) or not all(_simple(a) for a in node.args):
+                return node
+            sub = {p: a for p, a in zip(fixed, node.args)}
+            elts = []
+            for a in node.args[len(fixed):]:
+                m = dict(sub)
+                m[var] = a
+                elts.append(_Renamer(m, {}).visit(copy.deepcopy(elt)))
+            done.append(_qual(modname, None, name))
+            return ast.Tuple(elts=elts, ctx=ast.Load()) if kind == "tuple" else ast.List(elts=elts, ctx=ast.Load())
+
+    T().visit(tree)
+    return done
+
+
+def _split_tuple_assigns(fn: ast.FunctionDef) -> bool:
+    """`a, b = (ea, eb)` -> `a = ea; b = eb` when no target is read by a later element (same evaluation order)."""
+    changed = [False]
+
+    def rewrite(stmts):
+        out = []
+        for st in stmts:
+            for fld in ("body", "orelse", "finalbody"):
+                sub = getattr(st, fld, None)
+                if isinstance(sub, list) and sub and isinstance(sub[0], ast.stmt) and not isinstance(st, (ast.FunctionDef, ast.ClassDef)):
+                    setattr(st, fld, rewrite(sub))
+            if isinstance(st, ast.Assign) and len(st.targets) == 1 and isinstance(st.targets[0], ast.Tuple) and isinstance(st.value, (ast.Tuple, ast.List)) \
+                    and len(st.targets[0].elts) == len(st.value.elts) and all(isinstance(t, ast.Name) for t in st.targets[0].elts):
+                tg = [t.id for t in st.targets[0].elts]
+                ok = True
+                for i, v in enumerate(st.value.elts):
+                    used = {x.id for x in ast.walk(v) if isinstance(x, ast.Name)}
+                    if used & set(tg[:i]):
+                        ok = False
+                if ok and len(set(tg)) == len(tg):
+                    for t, v in zip(st.targets[0].elts, st.value.elts):
+                        out.append(ast.copy_location(ast.Assign(targets=[t], value=v), st))
+                    changed[0] = True
+                    continue
+            out.append(st)
+        return out
+
+    fn.body = rewrite(fn.body)
+    return changed[0]
+
+
+def _none_guard_assigns(fn: ast.FunctionDef) -> bool:
+    """`x = None if x is None else E`  /  `x = E if x is not None else None`  ->  `if x is not None: x = E`."""
+    changed = [False]
+
+    def rewrite(stmts):
+        out = []
+        for st in stmts:
+            for fld in ("body", "orelse", "finalbody"):
+                sub = getattr(st, fld, None)
+                if isinstance(sub, list) and sub and isinstance(sub[0], ast.stmt) and not isinstance(st, (ast.FunctionDef, ast.ClassDef)):
+                    setattr(st, fld, rewrite(sub))
+            if isinstance(st, ast.Assign) and len(st.targets) == 1 and isinstance(st.targets[0], ast.Name) and isinstance(st.value, ast.IfExp):
+                x = st.targets[0].id
+                t, a, b = st.value.test, st.value.body, st.value.orelse
+                is_none = isinstance(t, ast.Compare) and len(t.ops) == 1 and isinstance(t.left, ast.Name) and t.left.id == x and isinstance(t.comparators[0], ast.Constant) and t.comparators[0].value is None
+                if is_none:
+                    none_when_true = isinstance(t.ops[0], ast.Is)
+                    none_branch, val_branch = (a, b) if none_when_true else (b, a)
+                    if isinstance(none_branch, ast.Constant) and none_branch.value is None and isinstance(t.ops[0], (ast.Is, ast.IsNot)):
+                        test = ast.Compare(left=ast.Name(id=x, ctx=ast.Load()), ops=[ast.IsNot()], comparators=[ast.Constant(value=None)])
+                        out.append(ast.copy_location(ast.If(test=test, body=[ast.Assign(targets=[st.targets[0]], value=val_branch)], orelse=[]), st))
+                        changed[0] = True
+                        continue
+            out.append(st)
+        return out
+
+    fn.body = rewrite(fn.body)
+    return changed[0]
+
+
 def normalize_sources(sources: Dict[str, str], table: Optional[Set[str]] = None) -> Tuple[Dict[str, str], List[str]]:
     table = table if table is not None else baseline_table()
     out = dict(sources)
@@ -829,6 +1004,20 @@ def normalize_sources(sources: Dict[str, str], table: Optional[Set[str]] = None)
             if isinstance(st, ast.ClassDef):
                 _BASES[st.name] = [b.id for b in st.bases if isinstance(b, ast.Name)]
                 _METHODS[st.name] = {x.name for x in st.body if isinstance(x, ast.FunctionDef)}
+        vm = _expand_vararg_maps(tree, modname, table)
+        if vm:
+            changed_any = True
+            ast.fix_missing_locations(tree)
+            for nm_ in sorted(set(vm)):
+                short = nm_.split(":")[-1]
+                if not any((isinstance(n, ast.Name) and n.id == short) or (isinstance(n, ast.Attribute) and n.attr == short) for n in ast.walk(tree)):
+                    tree.body = [s_ for s_ in tree.body if not (isinstance(s_, ast.FunctionDef) and s_.name == short)]
+                inlined.append(nm_)
+            for st in tree.body:
+                for fn_ in ([st] if isinstance(st, ast.FunctionDef) else ([x for x in st.body if isinstance(x, ast.FunctionDef)] if isinstance(st, ast.ClassDef) else [])):
+                    _split_tuple_assigns(fn_)
+                    _none_guard_assigns(fn_)
+            ast.fix_missing_locations(tree)
         for _round in range(3):
             helpers: Dict[Tuple[Optional[str], str], _Helper] = {}
             for st in tree.body:
